@@ -17,7 +17,7 @@ pub fn edge_driver(out: &str, seed: u64, n: u64) {
     let mut r = Recorder::new(&format!("{}/edge.trace", out), base_setup());
     let (mut nbk, mut nkill, mut nclose, mut nutil) = (0u64, 0u64, 0u64, 0u64);
     for k in 0..n {
-        match k % 6 {
+        match k % 8 {
             0 => {
                 // ---- exact wipe: the sole borrower drew every deposited token (or all but delta), no fees, no time (or a
                 // second), empty or tiny insurance; collateral made worthless; bankruptcy. Uncovered loss =, <, > deposits.
@@ -25,7 +25,7 @@ pub fn edge_driver(out: &str, seed: u64, n: u64) {
                 let x: u64 = *pick(&mut rng, &[1_000_000u64, 123_456_789, 7, 50_000_000_000]);
                 // (loss = deposits, deposits - 1, deposits - 2; insurance empty, a unit, half, all, more than the debt)
                 let combos: [(u64, u64); 8] = [(0, 0), (1, 0), (0, 1), (0, x.saturating_add(5)), (2, 0), (0, x / 2), (0, x.saturating_mul(3)), (1, x)];
-                let (delta, ins) = combos[((k / 6) % 8) as usize];
+                let (delta, ins) = combos[((k / 8) % 8) as usize];
                 let two_lenders = rng.gen_bool(0.4);
                 let mut extra = vec![];
                 plain_bank("D1", dec, "spl", "1", json!({"ir":{"orig_fee":"0"}}), &mut extra);
@@ -274,6 +274,147 @@ pub fn edge_driver(out: &str, seed: u64, n: u64) {
                 r.act(json!({"op":"repay","acct":"A1","bank":"D1","amount":0,"all":true}));
                 r.act(json!({"op":"collect_fees","bank":"D1"}));
                 r.act(json!({"op":"withdraw","acct":"LP","bank":"D1","amount":0,"all":true}));
+            }
+            6 => {
+                // ---- Pyth feeds with exponents from -12 up to +3 and confidence ratios up to just under the maximum, on the
+                // collateral and on the debt side: borrow and withdraw boundaries, liquidation boundary in the price
+                let mut extra = vec![];
+                let ce: i64 = *pick(&mut rng, &[1i64, 2, 3, 0, -12, -10]);
+                let de: i64 = *pick(&mut rng, &[0i64, 1, 2, -8, -6]);
+                let cdec: u64 = *pick(&mut rng, &[6u64, 9, 2]);
+                let ddec: u64 = *pick(&mut rng, &[6u64, 9]);
+                let cp: i64 = if ce >= 0 { *pick(&mut rng, &[1i64, 7, 150, 31_999]) } else { *pick(&mut rng, &[2_000_000_000_000i64, 150_000_000_000, 999_999_999_999_999]) };
+                let dp: i64 = if de >= 0 { *pick(&mut rng, &[1i64, 3, 88]) } else { *pick(&mut rng, &[1_000_000i64, 100_000_000, 2_345_678_901]) };
+                let cr = *pick(&mut rng, &[0.0f64, 0.01, 0.02, 0.03, 0.046, 0.047, 0.048, 0.09]);
+                let dr = *pick(&mut rng, &[0.0f64, 0.0, 0.02, 0.04, 0.047, 0.06]);
+                extra.push(json!({"op":"add_mint","mint":"M.C1","decimals":cdec,"kind":"spl"}));
+                extra.push(json!({"op":"add_mint","mint":"M.D1","decimals":ddec,"kind":"spl"}));
+                extra.push(json!({"op":"add_bank","group":"G1","bank":"C1","mint":"M.C1","cfg":{"aw_init": *pick(&mut rng, &["0.5", "0.8", "0.9"]), "aw_maint":"0.9", "oracle_max_age":60}}));
+                extra.push(json!({"op":"add_bank","group":"G1","bank":"D1","mint":"M.D1","cfg":{"lw_init": *pick(&mut rng, &["1", "1.25"]), "lw_maint":"1", "oracle_max_age":60, "ir":{"orig_fee":"0"}}}));
+                let cconf = ((cp as f64) * cr) as i64;
+                let dconf = ((dp as f64) * dr) as i64;
+                extra.push(json!({"op":"set_oracle","oracle":"O.C1","kind":"pyth","price":cp,"conf":cconf,"ema": ((cp as f64) * *pick(&mut rng, &[1.0f64, 0.97, 1.04])).max(1.0) as i64,"ema_conf":cconf,"expo":ce}));
+                extra.push(json!({"op":"set_oracle","oracle":"O.D1","kind":"pyth","price":dp,"conf":dconf,"ema":dp,"ema_conf":dconf,"expo":de}));
+                extra.push(json!({"op":"configure_oracle","bank":"C1","oracle":"O.C1","setup":3}));
+                extra.push(json!({"op":"configure_oracle","bank":"D1","oracle":"O.D1","setup":3}));
+                extra.push(json!({"op":"fund","user":"U9","mint":"M.D1","amount":"4000000000000000000"}));
+                extra.push(json!({"op":"fund","user":"U2","mint":"M.D1","amount":"4000000000000000000"}));
+                extra.push(json!({"op":"fund","user":"U1","mint":"M.C1","amount":"4000000000000000000"}));
+                r.begin(&extra);
+                let camt: u64 = *pick(&mut rng, &[1_000_000u64, 50_000, 3_000_000_000]);
+                r.act(json!({"op":"deposit","acct":"LP","bank":"D1","amount":"1000000000000000000"}));
+                r.act(json!({"op":"deposit","acct":"A2","bank":"D1","amount":"1000000000000000000"}));
+                r.act(json!({"op":"deposit","acct":"A1","bank":"C1","amount":camt}));
+                r.act(json!({"op":"pulse_health","acct":"A1"}));
+                let mkb = |x: u64| json!({"op":"borrow","acct":"A1","bank":"D1","amount":x});
+                let mut debt = 0u64;
+                if let Some((lo, hi)) = search_boundary(&mut r, &mkb, 900_000_000_000_000_000, "RiskEngineInitRejected") {
+                    for amt in [hi, lo] {
+                        if amt > 0 {
+                            r.fork(&mut |r: &mut Recorder| {
+                                r.act(mkb(amt));
+                            });
+                        }
+                    }
+                    if lo > 0 && r.act(mkb(lo - lo / 5))["res"] == "ok" {
+                        debt = lo - lo / 5;
+                    }
+                }
+                let mkw = |x: u64| json!({"op":"withdraw","acct":"A1","bank":"C1","amount":x});
+                if let Some((lo, hi)) = search_boundary(&mut r, &mkw, camt, "RiskEngineInitRejected") {
+                    for amt in [hi, lo] {
+                        if amt > 0 {
+                            r.fork(&mut |r: &mut Recorder| {
+                                r.act(mkw(amt));
+                            });
+                        }
+                    }
+                }
+                r.act(json!({"op":"pulse_health","acct":"A1"}));
+                if debt > 0 {
+                    // liquidation boundary in the collateral price (confidence kept in proportion)
+                    let liq1 = json!({"op":"liquidate","liquidator":"A2","liquidatee":"A1","asset_bank":"C1","liab_bank":"D1","amount":1});
+                    let setp = |p: i64| json!({"op":"set_oracle","oracle":"O.C1","price":p,"conf":((p as f64) * cr) as i64});
+                    let at = |r: &mut Recorder, p: i64| -> Value {
+                        let s = r.ex.snapshot();
+                        r.ex.apply(&setp(p));
+                        let ev = r.ex.apply(&liq1);
+                        r.ex.restore(&s);
+                        ev
+                    };
+                    let (mut plo, mut phi) = (0i64, cp);
+                    if at(&mut r, phi)["err"] == "HealthyAccount" {
+                        while phi - plo > 1 {
+                            let mid = plo + (phi - plo) / 2;
+                            if mid > 0 && at(&mut r, mid)["res"] == "ok" {
+                                plo = mid;
+                            } else {
+                                phi = mid;
+                            }
+                        }
+                        r.act(setp(phi));
+                        r.act(liq1.clone());
+                        if plo > 0 {
+                            r.act(setp(plo));
+                            r.act(liq1.clone());
+                            r.act(json!({"op":"liquidate","liquidator":"A2","liquidatee":"A1","asset_bank":"C1","liab_bank":"D1","amount":camt / 20 + 1}));
+                        }
+                    }
+                }
+            }
+            7 => {
+                // ---- a collateral bank that is being wound down (reduce-only) while its oracle is no longer updated: debt backed
+                // by it cannot be assessed - neither liquidated nor written off - and it lends no borrowing power
+                let mut extra = vec![];
+                let c2 = rng.gen_bool(0.5);
+                extra.push(json!({"op":"add_mint","mint":"M.C1","decimals":6,"kind":"spl"}));
+                extra.push(json!({"op":"add_mint","mint":"M.D1","decimals":6,"kind":"spl"}));
+                extra.push(json!({"op":"add_bank","group":"G1","bank":"C1","mint":"M.C1","cfg":{"aw_init":"0.8","aw_maint":"0.9","oracle_max_age":60}}));
+                extra.push(json!({"op":"add_bank","group":"G1","bank":"D1","mint":"M.D1","cfg":{"lw_init":"1","lw_maint":"1","oracle_max_age":60,"ir":{"orig_fee":"0"}}}));
+                let kind = *pick(&mut rng, &["pyth", "swb"]);
+                if kind == "pyth" {
+                    extra.push(json!({"op":"set_oracle","oracle":"O.C1","kind":"pyth","price":1_000_000,"conf":0,"expo":-6}));
+                    extra.push(json!({"op":"configure_oracle","bank":"C1","oracle":"O.C1","setup":3}));
+                } else {
+                    extra.push(json!({"op":"set_oracle","oracle":"O.C1","kind":"swb","swb_value":"1000000000000000000","swb_std":"0"}));
+                    extra.push(json!({"op":"configure_oracle","bank":"C1","oracle":"O.C1","setup":4}));
+                }
+                extra.push(json!({"op":"set_oracle","oracle":"O.D1","kind":"pyth","price":1_000_000,"conf":0,"expo":-6}));
+                extra.push(json!({"op":"configure_oracle","bank":"D1","oracle":"O.D1","setup":3}));
+                if c2 {
+                    plain_bank("C2", 6, "spl", "1", json!({"aw_init":"0.5","aw_maint":"0.6"}), &mut extra);
+                    extra.push(json!({"op":"fund","user":"U1","mint":"M.C2","amount":"4000000000000000000"}));
+                }
+                extra.push(json!({"op":"fund","user":"U9","mint":"M.D1","amount":"4000000000000000000"}));
+                extra.push(json!({"op":"fund","user":"U2","mint":"M.D1","amount":"4000000000000000000"}));
+                extra.push(json!({"op":"fund","user":"U1","mint":"M.C1","amount":"4000000000000000000"}));
+                r.begin(&extra);
+                r.act(json!({"op":"deposit","acct":"LP","bank":"D1","amount":"1000000000000"}));
+                r.act(json!({"op":"deposit","acct":"A2","bank":"D1","amount":"1000000000000"}));
+                r.act(json!({"op":"deposit","acct":"A1","bank":"C1","amount":1_000_000_000u64}));
+                r.act(json!({"op":"init_liq_record","acct":"A1"}));
+                if c2 {
+                    r.act(json!({"op":"deposit","acct":"A1","bank":"C2","amount": *pick(&mut rng, &[1000u64, 100_000_000])}));
+                }
+                r.act(json!({"op":"borrow","acct":"A1","bank":"D1","amount": *pick(&mut rng, &[100_000_000u64, 600_000_000, 790_000_000])}));
+                r.act(json!({"op":"configure_bank","bank":"C1","cfg":{"op_state":2}}));
+                // the debt grows a little or a lot; the C1 feed stops, the D1 feed keeps going
+                r.act(json!({"op":"tick","dt": *pick(&mut rng, &[100i64, 100_000, 31_536_000, 94_608_000]),"refresh_oracles":false}));
+                r.act(json!({"op":"set_oracle","oracle":"O.D1","age":0}));
+                let liq = |x: u64| json!({"op":"liquidate","liquidator":"A2","liquidatee":"A1","asset_bank": if c2 {"C2"} else {"C1"},"liab_bank":"D1","amount":x});
+                r.act(liq(1));
+                r.act(json!({"op":"bankruptcy","acct":"A1","bank":"D1"}));
+                r.act(json!({"op":"pulse_health","acct":"A1"}));
+                r.act(json!({"op":"borrow","acct":"A1","bank":"D1","amount":1}));
+                r.fork(&mut |r: &mut Recorder| {
+                    r.act(json!({"op":"tx","ixs":[{"op":"start_liq","acct":"A1","receiver":"liquidator"},{"op":"end_liq","acct":"A1","receiver":"liquidator"}]}));
+                });
+                // the feed comes back with a price that makes the account unhealthy / keeps it healthy
+                r.act(json!({"op":"set_oracle","oracle":"O.C1","age":0,"price": *pick(&mut rng, &[1_000_000i64, 500_000, 100_000]),
+                             "swb_value": *pick(&mut rng, &["1000000000000000000", "500000000000000000"])}));
+                r.act(liq(1));
+                r.act(json!({"op":"pulse_health","acct":"A1"}));
+                r.act(json!({"op":"bankruptcy","acct":"A1","bank":"D1"}));
             }
             _ => {
                 // ---- a solvent account in a collateral bank whose collateral-value cap is lowered far below its deposits
